@@ -23,6 +23,22 @@ DONE = {
          "every interleaving of the atomic operations of a writer poll sequence against acknowledge and/or close on other threads; lost wake-ups surface as loom deadlocks, credit conservation asserted after join",
          "loom's own AtomicWaker/Mutex/RwLock models stand in for futures-util's and parking_lot's via the crate's loom shim; tokio channels not instrumented"),
 }
+
+DONE.update({
+ "C06": ("psim", "model_checking", "same explorer; close histories x schedules with bystander streams; open/close cycles against a scripted raw peer re-using one flow id; flow-table hook for the leak clause",
+         "every pair of close histories of a victim stream next to a bystander and a follow-up stream under every schedule within the bound; every sequence of up to L open/close cycles over 8 variants with forced re-use of the same id",
+         "re-use probed at link quiescence (old-incarnation frames still in flight are outside the statement); poll granularity"),
+ "C10": ("psim", "fault_enumeration", "bounded-exhaustive enumeration of peer frame sequences from every slot state against a real endpoint and a scripted raw peer, reference-decoded replies",
+         "every frame sequence up to length L over the alphabet (all opcodes x ids {0, victim, unknown} + bystander id + overrun) and terminal invalid messages, from each of 7 slot states, binds on and off; reply rules, bystander integrity, liveness, no panic",
+         "replies asserted only where PROTOCOL.md/the statement is explicit; hook used for preconditions and 'flow untouched'"),
+ "C18": ("enum", "exploration", "bounded-exhaustive enumeration of SOCKS4/4a/5 requests, replies and UDP headers (all truncations, two delivery modes) against an independent RFC 1928 / SOCKS4a reference",
+         "exhaustive products over versions, commands, address types, every domain length 0..255, ports, truncation points and trailers for the readers; all reply codes x address corners for the writers; UDP relay round trip through a reference client parser",
+         "address/payload bytes outside the listed fillings are not enumerated; lenient where the RFC leaves behaviour open (listed in evidence assumptions)"),
+ "C20": ("enum", "model_checking", "exhaustive enumeration of operation sequences up to depth L from several start states against a Vec<u8> model, every accessor compared after every operation",
+         "all operation histories over the LongChain alphabet (arguments at, inside and one past every boundary) up to depth L from the empty chain and three pre-built chains; CowBytes: all strings up to length 4/5 over a 3-letter alphabet through every accessor, comparison and hash in both variants",
+         "bounded depth; nothing sampled (the 'random longer ones' of the quantifier are not covered)"),
+})
+
 REASON_PENDING = "check not built yet (work in progress; planned engine in DESIGN.md section 3)"
 
 def main():
